@@ -269,3 +269,78 @@ def controlling_sources(fd, ins):
         else:
             out.append((sw, None, d))
     return out
+
+
+def _has(at, r):
+    return r in at or (r.startswith("call:") and ("decl:" + r[5:]) in at)
+
+
+def call_arg_provenance(ctx, rid, key, callee, table, rule="T1", families=True, which="all"):
+    """positional provenance of the arguments of every call to `callee` in `key` (and its closures).
+    table: arg index -> (label, required atoms, forbidden atoms)"""
+    found = 0
+    for k in (ctx.prog.family(key) if families else [key]):
+        fd = ctx.fd(k)
+        if fd is None:
+            continue
+        for ins in calls_to(fd, callee):
+            found += 1
+            for ai, (label, req, forb) in table.items():
+                oid = "%s.%s.arg-%s" % (rid, callee.split("::")[-1], label) + ("" if found == 1 else "#%d" % found)
+                o = ctx.ob(oid, rule, k, "%s(.. %s ..) is fed from %s" % (callee.split("::")[-1], label,
+                                                                       ", ".join(x.split("::")[-1] for x in req) or "-"))
+                o.loc = ins.line()
+                if ai >= len(ins.args):
+                    ctx.bad(o, "call has only %d arguments" % len(ins.args))
+                    continue
+                at = fd.slice_operand_pure(ins, ins.args[ai])["atoms"]
+                miss = [r for r in req if not _has(at, r)]
+                bad = [r for r in forb if _has(at, r)]
+                msg = []
+                if miss:
+                    msg.append("does not derive from %s" % fmt_missing(miss))
+                if bad:
+                    msg.append("derives from %s (a different input field)" % fmt_missing(bad))
+                ctx.decide(o, not miss and not bad, "", "argument `%s` of %s at %s %s" % (label, callee.split("::")[-1], ins.line(), " and ".join(msg)),
+                           loc=ins.line())
+    if not found:
+        o = ctx.ob("%s.%s.site" % (rid, callee.split("::")[-1]), "T8", key, "a call to %s is found in %s" % (callee.split("::")[-1], key.split("::")[-1]))
+        if ctx.prog.bodies.get(key) is None:
+            o.status = "anchor-missing"
+            o.detail = "function %s not found" % key
+        else:
+            ctx.bad(o, "no call to %s in %s" % (callee, key))
+    return found
+
+
+def positional_ctor(ctx, oid, key, adt, expected, rule="T7"):
+    """the constructor function stores parameter k in the field it is named for"""
+    from . import prov
+    o = ctx.ob(oid, rule, key, "%s stores each parameter in the corresponding field of %s" % (key.split("::")[-1], adt.split("::")[-1]))
+    if ctx.prog.bodies.get(key) is None:
+        o.status = "anchor-missing"
+        o.detail = "function %s not found" % key
+        return
+    ctx.functions.add(key)
+    cm = prov.ctor_map(ctx.prog, key, adt)
+    if cm is None:
+        ctx.bad(o, "no construction of %s in %s" % (adt, key))
+        return
+    bad = {f: (cm.get(f), p) for f, p in expected.items() if cm.get(f) != p}
+    ctx.decide(o, not bad, "fields <- parameters: %s" % cm,
+               "field/parameter mapping differs: %s" % ", ".join("%s <- parameter %s (expected %s)" % (f, g, e) for f, (g, e) in bad.items()))
+
+
+def getter(ctx, oid, key, required, forbidden=(), text=None, rule="T1"):
+    o, fd = ctx.require_fn(oid, rule, key, text or "%s returns %s" % (key.split("::")[-1], ", ".join(r.split(".")[-1] for r in required)))
+    if fd is None:
+        return
+    at = fd.slice(seed_locals=[0], control=False)["atoms"]
+    miss = [r for r in required if not _has(at, r)]
+    bad = [r for r in forbidden if _has(at, r)]
+    msg = []
+    if miss:
+        msg.append("does not read %s" % fmt_missing(miss))
+    if bad:
+        msg.append("reads %s" % fmt_missing(bad))
+    ctx.decide(o, not miss and not bad, "", "%s %s" % (key.split("::")[-1], " and ".join(msg)))
